@@ -3,6 +3,7 @@ from hypothesis import strategies as st
 
 from .. import corrupt, plotgen
 from ..harness import qcall
+from ..harness import verbosity as harness_verbosity
 
 ID = "C04"
 LEVEL = "fault_enumeration"
@@ -87,7 +88,7 @@ def check_case(case, ctx):
     except Exception as e:
         v.append(f"non-failing mode raised {type(e).__name__}: {str(e)[:150]} ({what})")
     try:
-        qcall(lambda: Taster("src", limit_level=limit, verbose=0, boxes_coordinates=coords))
+        qcall(lambda: Taster("src", limit_level=limit, verbose=harness_verbosity(case), boxes_coordinates=coords))
         v.append(f"failing mode did not raise: {what}")
     except Exception:
         pass
